@@ -72,33 +72,44 @@ def make_scripted(N: int, *, with_z: bool = False, with_x: bool = True, base=Non
         def _script_state(self):
             return self.__dict__['_sx']
 
-        def attach(self, script: Script) -> None:
-            self.__dict__['_sx'] = {'script': script, 'pass': 0, 'log': []}
+        def attach(self, script, scripts=None) -> None:
+            """`script`: default Script; `scripts`: optional {position: Script} for multi-period runs."""
+            self.__dict__['_sx'] = {'script': script, 'scripts': scripts or {}, 'pass': {}, 'log': [], 'snaps': {},
+                                    'tlog': []}
+
+        def _sx_for(self, t):
+            st = self.__dict__['_sx']
+            tc = t if t >= 0 else t + len(self.__dict__['span'])
+            return st, st['scripts'].get(tc, st['script']), tc
 
         def solve_t_before(self, t, *, errors='raise', catch_first_error=True, iteration=None, **kwargs):
-            st = self._script_state()
+            st, s, tc = self._sx_for(t)
             st['log'].append(('before', iteration))
-            kb = st['script'].kb
+            st['tlog'].append(('before', tc, iteration))
+            kb = s.kb
             if kb == RAISE:
                 raise HookFault('scripted pre-hook fault')
             if kb == WARN:
                 warnings.warn('scripted pre-hook warning', RuntimeWarning)
+            st['log'].append(('before_done', iteration))
 
         def solve_t_after(self, t, *, errors='raise', catch_first_error=True, iteration=None, **kwargs):
-            st = self._script_state()
+            st, s, tc = self._sx_for(t)
             st['log'].append(('after', iteration))
-            ka = st['script'].ka
+            st['tlog'].append(('after', tc, iteration))
+            ka = s.ka
             if ka == RAISE:
                 raise HookFault('scripted post-hook fault')
             if ka == WARN:
                 warnings.warn('scripted post-hook warning', RuntimeWarning)
+            st['log'].append(('after_done', iteration))
 
         def _evaluate(self, t, *, errors='raise', catch_first_error=True, iteration=None, **kwargs):
-            st = self._script_state()
-            s = st['script']
-            st['pass'] += 1
-            p = st['pass']
+            st, s, tc = self._sx_for(t)
+            st['pass'][tc] = st['pass'].get(tc, 0) + 1
+            p = st['pass'][tc]
             st['log'].append(('eval', iteration))
+            st['tlog'].append(('eval', tc, iteration))
             if p > s.B:
                 raise AssertionError('script exhausted: more passes than max_iter')
             kind, fs = s.kind[p], s.fs[p]
@@ -112,6 +123,8 @@ def make_scripted(N: int, *, with_z: bool = False, with_x: bool = True, base=Non
                     self.__dict__['_Y%d' % i][t] = s.v[p][i]
             if with_z:
                 self.__dict__['_Z'][t] = s.z[p]
+            st['log'].append(('eval_done', iteration))
+            st['snaps'][p] = {n: self.__dict__['_' + n][t] for n in self.names}
 
     Scripted.__name__ = f'Scripted{N}'
     _CLASS_CACHE[key] = Scripted
